@@ -164,8 +164,9 @@ class FtpScript(object):
           ('datafail', kind)     (at 'data') the data connection breaks with an exception of that kind
           ('refuse_data',)       (at 'PASV') answer with a port nobody listens on
     """
-    def __init__(self, run, files, dirs=(), listings=None, hostile=None):
+    def __init__(self, run, files, dirs=(), listings=None, hostile=None, mlsd=None):
         self.run = run
+        self.mlsd = mlsd or {}      # {path: bytes}: directories for which MLSD (RFC 3659) is answered
         self.files = files
         self.dirs = dirs
         self.listings = listings or {}
@@ -255,11 +256,14 @@ class FtpControl(fakenet.BaseServer):
                 ep.send(b'227 Entering Passive Mode (10,0,0,3,4,9)\r\n')
             else:
                 self.reply(ep, 'PASV', b'227 Entering Passive Mode (10,0,0,3,4,1)\r\n')
-        elif name == 'MLSD':
+        elif name == 'MLSD' and arg not in s.mlsd:
             self.reply(ep, 'MLSD', b'500 unknown\r\n')
-        elif name in ('LIST', 'RETR'):
+        elif name in ('LIST', 'RETR', 'MLSD'):
             dep = s.data_eps[-1] if s.data_eps else None
-            if name == 'LIST':
+            if name == 'MLSD':
+                payload = s.mlsd[arg]
+                ok = True
+            elif name == 'LIST':
                 payload = s.listing(arg)
                 ok = True
             else:
